@@ -150,7 +150,7 @@ public:
 	basic_string(const Char *c_string, Allocator allocator = Allocator())
 	: _allocator{std::move(allocator)} {
 		_length = generic_strlen(c_string);
-		_buffer = (Char *)_allocator.allocate(sizeof(Char) * _length + 1);
+		_buffer = (Char *)_allocator.allocate(sizeof(Char) * (_length + 1));
 		memcpy(_buffer, c_string, sizeof(Char) * _length);
 		_buffer[_length] = 0;
 	}
@@ -161,7 +161,7 @@ public:
 
 	basic_string(const Char *buffer, size_t size, Allocator allocator = Allocator())
 	: _allocator{std::move(allocator)}, _length{size} {
-		_buffer = (Char *)_allocator.allocate(sizeof(Char) * _length + 1);
+		_buffer = (Char *)_allocator.allocate(sizeof(Char) * (_length + 1));
 		memcpy(_buffer, buffer, sizeof(Char) * _length);
 		_buffer[_length] = 0;
 	}
@@ -172,7 +172,7 @@ public:
 
 	explicit basic_string(const basic_string_view<Char> &view, Allocator allocator = Allocator())
 	: _allocator{std::move(allocator)}, _length{view.size()} {
-		_buffer = (Char *)_allocator.allocate(sizeof(Char) * _length + 1);
+		_buffer = (Char *)_allocator.allocate(sizeof(Char) * (_length + 1));
 		memcpy(_buffer, view.data(), sizeof(Char) * _length);
 		_buffer[_length] = 0;
 	}
@@ -183,7 +183,7 @@ public:
 
 	basic_string(size_t size, Char c = 0, Allocator allocator = Allocator())
 	: _allocator{std::move(allocator)}, _length{size} {
-		_buffer = (Char *)_allocator.allocate(sizeof(Char) * _length + 1);
+		_buffer = (Char *)_allocator.allocate(sizeof(Char) * (_length + 1));
 		for(size_t i = 0; i < size; i++)
 			_buffer[i] = c;
 		_buffer[_length] = 0;
@@ -191,7 +191,7 @@ public:
 
 	basic_string(const basic_string &other)
 	: _allocator{other._allocator}, _length{other._length} {
-		_buffer = (Char *)_allocator.allocate(sizeof(Char) * _length + 1);
+		_buffer = (Char *)_allocator.allocate(sizeof(Char) * (_length + 1));
 		memcpy(_buffer, other._buffer, sizeof(Char) * _length);
 		_buffer[_length] = 0;
 	}
@@ -211,7 +211,7 @@ public:
 		if(copy_length > new_length)
 			copy_length = new_length;
 
-		Char *new_buffer = (Char *)_allocator.allocate(sizeof(Char) * new_length + 1);
+		Char *new_buffer = (Char *)_allocator.allocate(sizeof(Char) * (new_length + 1));
 		memcpy(new_buffer, _buffer, sizeof(Char) * copy_length);
 		new_buffer[new_length] = 0;
 
@@ -225,7 +225,7 @@ public:
 	// TODO: Better: Return expression template?
 	basic_string operator+ (const basic_string_view<Char> &other) {
 		size_t new_length = _length + other.size();
-		Char *new_buffer = (Char *)_allocator.allocate(sizeof(Char) * new_length + 1);
+		Char *new_buffer = (Char *)_allocator.allocate(sizeof(Char) * (new_length + 1));
 		memcpy(new_buffer, _buffer, sizeof(Char) * _length);
 		memcpy(new_buffer + _length, other.data(), sizeof(Char) * other.size());
 		new_buffer[new_length] = 0;
@@ -241,7 +241,7 @@ public:
 	// TODO: Better: Return expression template?
 	basic_string operator+ (Char c) {
 		size_t new_length = _length + 1;
-		Char *new_buffer = (Char *)_allocator.allocate(sizeof(Char) * new_length + 1);
+		Char *new_buffer = (Char *)_allocator.allocate(sizeof(Char) * (new_length + 1));
 		memcpy(new_buffer, _buffer, sizeof(Char) * _length);
 		new_buffer[_length] = c;
 		new_buffer[new_length] = 0;
@@ -259,7 +259,7 @@ public:
 
 	basic_string &operator+= (const basic_string_view<Char> &other) {
 		size_t new_length = _length + other.size();
-		Char *new_buffer = (Char *)_allocator.allocate(sizeof(Char) * new_length + 1);
+		Char *new_buffer = (Char *)_allocator.allocate(sizeof(Char) * (new_length + 1));
 		memcpy(new_buffer, _buffer, sizeof(Char) * _length);
 		memcpy(new_buffer + _length, other.data(), sizeof(Char) * other.size());
 		new_buffer[new_length] = 0;
@@ -274,7 +274,7 @@ public:
 
 	basic_string &operator+= (Char c) {
 		/* TODO: SUPER INEFFICIENT should be done with a _capacity variable */
-		Char *new_buffer = (Char *)_allocator.allocate(sizeof(Char) * _length + 2);
+		Char *new_buffer = (Char *)_allocator.allocate(sizeof(Char) * (_length + 2));
 		memcpy(new_buffer, _buffer, sizeof(Char) * _length);
 		new_buffer[_length] = c;
 		new_buffer[_length + 1] = 0;
